@@ -49,6 +49,15 @@ def one_case(ctx, rng, k, model):
             src = conv.segy_cube(sgy)
             if route.startswith('cli'):
                 cli_convert(sgy, out, q, bs, route.endswith('ri'))
+            elif k % 5 == 3 and n[0] >= 3:
+                # the same route through an inline window that keeps every crossline (a sub-cube is a cube: C01 applies
+                # to it, whichever reader the converter selects for a window)
+                a0 = int(rng.integers(1, n[0] - 1))
+                a1 = int(rng.integers(a0 + 1, n[0] + 1))
+                desc.update(window=(a0, a1, 0, n[1]))
+                conv.segy_to_sgz(sgy, out, q, bs_arg, reduce_iops=route.endswith('ri'), style=k // 8, window=(a0, a1, 0, n[1]))
+                src = src[a0:a1]
+                ctx.stats['windowed'] += 1
             else:
                 conv.segy_to_sgz(sgy, out, q, bs_arg, reduce_iops=route.endswith('ri'), style=k // 8)
     except Exception as e:  # noqa
